@@ -46,7 +46,7 @@ func (c05) Meta() fw.Meta {
 			"kills that land inside a Sync (last record sync-begin) are counted but not judged: the property speaks of points between Syncs",
 			"clock domain as C01",
 		},
-		Obligations: []string{"ops_with_byte_check", "syncs", "observer_windows_compared", "page_straddle_slot_dirtied", "sync_noncontiguous_dirty_pages", "abandon_prefixes", "kills_between_syncs", "kills_before_first_sync", "cli_failed_copy_dest_unchanged", "unsynced_dirty_state_checked", "damaged_file_histories", "failed_updates_before_sync"},
+		Obligations: []string{"ops_with_byte_check", "syncs", "observer_windows_compared", "page_straddle_slot_dirtied", "sync_noncontiguous_dirty_pages", "abandon_prefixes", "kills_between_syncs", "kills_before_first_sync", "cli_failed_copy_dest_unchanged", "unsynced_dirty_state_checked", "damaged_file_histories", "failed_updates_before_sync", "waiting_opener_trials", "waiting_opener_had_to_wait", "bulk_batches"},
 		Workers:     12,
 	}
 }
@@ -137,6 +137,11 @@ func (c05) Run(c *fw.Ctx) {
 	if c.Index%8 == 7 {
 		c05CLI(c)
 		return
+	}
+	if c.Index%16 == 3 {
+		if !c05Bulk(c) {
+			return
+		}
 	}
 	// multi-page layout
 	l := genLayout(r, layoutOpts{minArch: 1, maxArch: 3, maxPoints0: 3000, multiPage: true, smallRatios: true})
@@ -449,6 +454,24 @@ func (c05) Run(c *fw.Ctx) {
 		os.Remove(p2)
 	}
 
+	// ---- monitor 2b: a handle whose Open had to wait for the lock of a handle with unsynced changes
+	if c.Index%2 == 0 {
+		p3 := filepath.Join(c.TmpDir(), "c05-wait.wsp")
+		if err := ioutil.WriteFile(p3, synced, 0644); err != nil {
+			panic(err)
+		}
+		diff, waited := waitingOpener(p3, l, now, r)
+		c.Count("waiting_opener_trials", 1)
+		if waited {
+			c.Count("waiting_opener_had_to_wait", 1)
+		}
+		os.Remove(p3)
+		if diff != "" {
+			c.Violationf("handle-opened-after-sync-differs", fw.J{"layout": l, "now": now, "what": diff}, "a handle opened after the holder's Sync and Close does not see the synced state: %s", diff)
+			return
+		}
+	}
+
 	// ---- monitor 3b: child process killed at an uncoordinated point
 	nk := 1
 	if c.Tier == "thorough" {
@@ -685,4 +708,66 @@ func c05CLI(c *fw.Ctx) {
 	c.Count("cli_failed_copy_dest_unchanged", 1)
 	c.Nontrivial("cli", s.name, c.Index)
 	c.Sample(fw.J{"cli_scenario": s.name, "args": s.args})
+}
+
+// c05Bulk: one batch of many thousands of points into a long archive. Nothing may reach the file before Sync
+// (a handle abandoned after the batch leaves the last synced image), and Sync must write all of it.
+func c05Bulk(c *fw.Ctx) bool {
+	r := c.Rng
+	n0 := uint32(9000 + r.Intn(16000))
+	l := model.Layout{Archs: []model.Arch{{Step: 1, Points: n0}}, Method: 1 + r.Intn(6), Xff: 0.5}
+	if r.Intn(2) == 0 {
+		l.Archs = append(l.Archs, model.Arch{Step: 60, Points: n0/60 + uint32(2+r.Intn(400))})
+	}
+	now := genClock(r, l)
+	path := filepath.Join(c.TmpDir(), "c05-bulk.wsp")
+	db, err := createFile(path, l)
+	if err != nil {
+		panic(err)
+	}
+	defer db.Close()
+	db.UpdatePointForArchive(0, u32(now), 1, u32(now))
+	if err := db.Sync(); err != nil {
+		panic(err)
+	}
+	img0, _ := ioutil.ReadFile(path)
+	np := 8200 + r.Intn(int(n0)-8200)
+	pts := make([]wt.Point, 0, np)
+	for j := 0; j < np; j++ {
+		pts = append(pts, wt.Point{Time: wt.Timestamp(now - int64(j)), Value: wt.Value(float64(j) + 0.5)})
+	}
+	r.Shuffle(len(pts), func(i, j int) { pts[i], pts[j] = pts[j], pts[i] })
+	if err := db.UpdatePointsForArchive(pts, 0, u32(now)); err != nil {
+		c.Violationf("write-error", fw.J{"layout": l, "err": err.Error()}, "bulk batch failed: %v", err)
+		return false
+	}
+	c.Count("bulk_batches", 1)
+	c.Count("bulk_batch_points", int64(np))
+	img1, _ := ioutil.ReadFile(path)
+	if d := firstDiff(img0, img1); d >= 0 {
+		c.Violationf("bytes-changed-without-sync", fw.J{"layout": l, "now": now, "batch_points": np, "offset": d},
+			"one batch of %d points changed the file at byte %d before any Sync", np, d)
+		return false
+	}
+	raw, rerr := rawOf(db)
+	if rerr != nil {
+		panic(rerr)
+	}
+	if err := db.Sync(); err != nil {
+		c.Violationf("sync-error", fw.J{"err": err.Error()}, "Sync failed: %v", err)
+		return false
+	}
+	_, fraw, _, perr := rawOfFile(path)
+	if perr != nil {
+		c.Violationf("synced-file-unparsable", fw.J{"err": perr.Error()}, "synced file does not parse: %v", perr)
+		return false
+	}
+	for ai := range raw {
+		if d := model.EqualSlots(fraw[ai], raw[ai]); d >= 0 {
+			c.Violationf("synced-file-differs-from-handle", fw.J{"layout": l, "now": now, "batch_points": np, "archive": ai, "slot": d},
+				"after the bulk batch and Sync archive %d slot %d on disk is %v, the live handle holds %v", ai, d, fraw[ai][d], raw[ai][d])
+			return false
+		}
+	}
+	return true
 }
